@@ -261,6 +261,43 @@ CHECKS.update({
     ),
 })
 
+CHECKS.update({
+    "C07": dict(
+        level="exploration", engine="bex",
+        text="Every built-in that value.New() documents except 9 (107 of 116; names and arities read from GetDocumentation) is called on every receiver of a fixed pool "
+             "(12 list contents each eager/lazy-sized/lazy-unsized, 10 strings, 4 map contents in 3 storage representations, 16 scalars) with every choice of its "
+             "callback pool (good callbacks, wrong arity, non-function, wrong result type, throw at the first/middle/last element) and numeric arguments "
+             "{-1,0,1,2,size,size+1,1.0,\"1\"}, as function arguments and again as literals with the optimizer on; then every sort-correct chain of 2, 3 and 4 of 113 "
+             "built-in steps (quick: 2.9 M, thorough: 36.7 M evaluations, exhaustive within these bounds). The forced result must equal an independent reference "
+             "library written from the method descriptions (deep equality; permutation-without-inversion for order*/orderLess; unordered groups for "
+             "groupBy*/unique*/map.list; error for misuse, failing callbacks and empty reductions).",
+        note="Trusted: internal/refsem (core plus libfull.go, written from the SetMethodDescription texts and DESIGN.md Appendix B), internal/vlang rendering, the vrun "
+             "value conversion. Not decided: the ~40 unspecified categories counted in the evidence (laziness-dependent fault cases = C08, single() on more than "
+             "one item, len/indexOf unit on non-ASCII strings, float text, sign(0), map.combine with a missing key, non-equivalence compact callbacks, …), the 9 "
+             "excluded built-ins (random*, bisection, createLowPass, linearReg, createInterpolation, binning* = C20), receivers outside the pools, chains longer than 4.",
+        technique="bounded-exhaustive enumeration of (built-in or chain, receiver, arguments) against a reference library model",
+        design_ref="DESIGN.md §5 C07, Appendix B",
+    ),
+})
+
+CHECKS.update({
+    "C03": dict(
+        level="exploration", engine="bex",
+        text="Every operator table of 1..3 (thorough: ..4) binary spellings from a 12-spelling pool built to collide under maximal munch, with every subset of prefix "
+             "operators {- ! ~} (also binary at every position including the last) and a text alias on/off, plus dead-end, prefix-of-binary and 16-operator tables, "
+             "is combined with every operator tree of <= 3 (thorough: 4) nodes in every parenthesisation (minimal, every subset of redundant pairs, full), with postfix "
+             "and keyword forms around and inside the trees. The real Parse's AST must equal the tree of a reference precedence-climbing parser written from the "
+             "property statement, which itself must reproduce every generated tree from every rendering. Every single-token deletion or insertion of every valid token "
+             "string of <= 6 (thorough: 7) tokens on 7 tables must be rejected unless the reference accepts it; panics are violations. Exhaustive within these bounds "
+             "(35 M evaluations quick).",
+        note="Bounds are far below the quantifier's 16 operators and depth, except for three 16-operator orders at <= 2/3 nodes. Leaves are labelled a b 1 by position. "
+             "Trusted: the reference parser (cross-validated against the renderer on every tree) and the layout rule. Counted as unspecified and excluded: '->' after an "
+             "identifier (closure syntax), list literals, trailing commas, keyword forms unparenthesised after an operator.",
+        technique="bounded-exhaustive enumeration of operator tables x expression trees x parenthesisations and of single-token mutations, differential against a reference parser",
+        design_ref="DESIGN.md §5 C03",
+    ),
+})
+
 NOT_YET = "check not built yet in this session (planned, see DESIGN.md §9); not claimed until its machinery exists"
 
 def main():
